@@ -77,6 +77,7 @@ func verifDir() string {
 // Case counts one evaluated case; key identifies it for distinctness when it is
 // non-trivial by the property's rule (empty key = trivial).
 func (r *Run) Case(stream string, nontrivialKey string) {
+	progress.Add(1)
 	r.Evals++
 	r.Streams[stream]++
 	if nontrivialKey != "" {
